@@ -7,9 +7,9 @@ change that reads the tuple twice, writes it in two steps, publishes the table b
 loop), or touches the fields from a new place changes the generated text and breaks that obligation.  Anything outside the
 subset below raises `Unsupported`.
 
-Limit of the static view: an operator applied to the RESULT of a call is taken to act on a fresh object; `P * 1` returns
-`P` itself, so `P * 1 + Q` (mul_add with a multiplier 1) touches `P` once more than the skeleton says.  The real-thread
-enumeration (harness/props/C18.py) sees every access dynamically and covers that case."""
+An operator applied to the RESULT of a call that may be one of the operands itself (`P * 1` returns `P`, `scale()` returns
+`self`, ...: the methods with a `return self` / `return other`, transitively) is recorded as `callR o "__add__"`: the
+addition touches `o` again when the result aliases it."""
 import ast, os
 from lib import common
 from .py2lean import Unsupported
@@ -28,8 +28,9 @@ def _cls(tree, name):
 
 
 class Walker:
-    def __init__(self, methods, relevant, fname, params):
+    def __init__(self, methods, relevant, fname, params, aliasing=()):
         self.methods, self.relevant, self.fname = methods, relevant, fname
+        self.aliasing = set(aliasing)   # methods that may return `self` / `other` themselves (scale, __mul__, __add__ ...)
         self.params = [p for p in params if p != "self"]   # only those used as objects (see skeletons())
         self.other_name = None   # the one non-self parameter used as a point object ("other")
         self.out = []
@@ -76,6 +77,20 @@ class Walker:
         if isinstance(e, ast.Name):
             r = self.recv(e)
             return r if r in SHARED_NAMES else None
+        return None
+
+    def may_alias(self, e):
+        """'self' / 'other' when the value of the expression may BE that (possibly shared) object: `self * k` (returns self
+        for k == 1), `self.scale()`, `self + other` ...; None when it is certainly a fresh object / not a point"""
+        if isinstance(e, ast.Call) and isinstance(e.func, ast.Attribute) and e.func.attr in self.aliasing:
+            return self.shared(e.func.value) or self.may_alias(e.func.value)
+        if isinstance(e, ast.BinOp) and isinstance(e.op, (ast.Mult, ast.Add)):
+            m = "__mul__" if isinstance(e.op, ast.Mult) else "__add__"
+            if m in self.aliasing:
+                for side in (e.left, e.right):
+                    r = self.shared(side) or self.may_alias(side)
+                    if r:
+                        return r
         return None
 
     def emit_call(self, node, r, m):
@@ -170,6 +185,11 @@ class Walker:
             self.expr(e.left); self.expr(e.right)
             if self.shared(e.left) and isinstance(e.op, (ast.Mult, ast.Add)):
                 self.emit_call(e, self.shared(e.left), "__mul__" if isinstance(e.op, ast.Mult) else "__add__")
+            elif isinstance(e.op, ast.Add) and (self.may_alias(e.left) or self.may_alias(e.right)):
+                # an operator applied to the RESULT of a call that may be the shared object itself (`self * a + other * b`
+                # with a == 1): the addition then touches that object again
+                if "__add__" in self.relevant:
+                    self.out.append(("callR", self.may_alias(e.left) or self.may_alias(e.right), "__add__"))
             elif self.shared(e.right) and isinstance(e.op, (ast.Mult, ast.Add)):
                 # `X + other` where X is fresh / a number: dispatches to X.__add__ or other.__radd__; only fresh X supported
                 if not self.is_fresh_expr(e.left) and not isinstance(e.op, ast.Mult):
@@ -333,6 +353,31 @@ def skeletons(path):
                 continue
             if any(mentions(f, r) for r in relevant):
                 relevant.add(m); changed = True
+    # methods that may return one of their (possibly shared) operands themselves
+    aliasing = set()
+    changed = True
+    while changed:
+        changed = False
+        for m, f in fns.items():
+            if m in aliasing or m == "__init__":
+                continue
+            objs = ["self"] + obj_params(f)
+            for n in ast.walk(f):
+                if not isinstance(n, ast.Return) or n.value is None:
+                    continue
+                v = n.value
+                hit = isinstance(v, ast.Name) and v.id in objs
+                if isinstance(v, ast.Call) and isinstance(v.func, ast.Attribute) and v.func.attr in aliasing:
+                    hit = True
+                if isinstance(v, ast.BinOp) and isinstance(v.op, (ast.Mult, ast.Add)):
+                    mm = "__mul__" if isinstance(v.op, ast.Mult) else "__add__"
+                    if mm in aliasing and any(isinstance(x, ast.Name) and x.id in objs for x in (v.left, v.right)):
+                        hit = True
+                    if mm in aliasing and any(isinstance(x, ast.BinOp) for x in (v.left, v.right)):
+                        hit = True
+                if hit:
+                    aliasing.add(m); changed = True
+                    break
     res = {}
     for m, f in fns.items():
         if m == "__init__":
@@ -348,7 +393,7 @@ def skeletons(path):
             continue
         if any(d for d in f.decorator_list if not (isinstance(d, ast.Name) and d.id == "staticmethod")):
             raise Unsupported("decorator on %s" % m)
-        w = Walker(methods, relevant, m, obj_params(f))
+        w = Walker(methods, relevant, m, obj_params(f), aliasing)
         w.stmts(f.body[1:] if f.body and isinstance(f.body[0], ast.Expr) and isinstance(f.body[0].value, ast.Constant) else f.body)
         toks = []
         for t in w.out:
@@ -366,8 +411,8 @@ def skeletons(path):
 def _lean_tok(t):
     if t[0] in ("R", "W"):
         return ".%s .%s .%s" % t
-    if t[0] == "call":
-        return '.call .%s "%s"' % (t[1], t[2])
+    if t[0] in ("call", "callR"):
+        return '.%s .%s "%s"' % (t[0], t[1], t[2])
     return "." + t[0]
 
 
@@ -430,7 +475,7 @@ def generate():
     names = []
     for m in sorted(sk):
         if m not in relevant:
-            if any(t[0] in ("R", "W", "call") for t in sk[m]):
+            if any(t[0] in ("R", "W", "call", "callR") for t in sk[m]):
                 raise Unsupported("internal: %s has tokens but is not relevant" % m)
             continue
         names.append(m)
